@@ -54,6 +54,7 @@ type Contract struct {
 	Ghosts   []string
 	Used     bool
 	Panics   []Clause
+	Watch    []Clause
 }
 
 type SpecFun struct {
@@ -260,6 +261,8 @@ func (ct *ContractTable) LoadFile(path, pkg string, inRepo bool) {
 				c := mk(rest)
 				c.Trusted = true
 				cur.Ensures = append(cur.Ensures, c)
+			case "watch":
+				cur.Watch = append(cur.Watch, mk(rest))
 			case "modifies":
 				cur.ModSet = true
 				for _, m := range strings.Split(rest, ",") {
